@@ -59,3 +59,14 @@ func (ctrler *StakeCtrler) VerifVolatile() VerifVolatile {
 	ret.LimiterOn = len(ctrler.lastValidators) >= 3
 	return ret
 }
+
+// VerifCloseLeaked closes the databases that Close() leaves open, so that a
+// harness process can open many application instances one after another.
+func (ctrler *StakeCtrler) VerifCloseLeaked() {
+	if ctrler.rewardLedger != nil {
+		_ = ctrler.rewardLedger.Close()
+	}
+	if ctrler.rwdHashDB != nil {
+		_ = ctrler.rwdHashDB.Close()
+	}
+}
